@@ -359,9 +359,19 @@ def run_case(ctx, cid, P):
     for side in ("c", "s"):
         f = fifo[peer[side]]
         guard = 0
-        while ok and f.pending and guard < 10000:
+        stuck = 0
+        # (with 64-byte records a case can leave tens of thousands of
+        # records to read: bounded by the data, not by a call count)
+        while ok and f.pending and guard < 64 + f.pending + guard:
             guard += 1
+            before = f.pending
             ok = do_read(side, None, 1)
+            if ok and f.pending >= before:
+                stuck = stuck + 1 if before == f.pending else 0
+                if stuck > 50:
+                    break
+            else:
+                stuck = 0
         if ok and f.pending:
             fail("undelivered", pending=f.pending)
     if not ok:
